@@ -41,3 +41,13 @@ def gen_model(rng, max_rows=40):
     rows = [[x0 + i * step] + [rng.uniform(-10, 200) for _ in names[1:]] for i in range(nrows)]
     return {'version': rng.pick(['1.2', '2.0']), 'curves': [(n, rng.pick(['M', 'GAPI', 'IN', '', 'G/C3'])) for n in names], 'rows': rows,
             'long_titles': rng.chance(0.5), 'pad': rng.randrange(1, 12), 'lead_comments': ['comment'] * rng.randrange(0, 3)}
+
+
+def token_fields(by: bytes):
+    """(pos, n, name) of the key tokens of the version section: the version number, the ~V section name, the wrap flag."""
+    import re
+    out = []
+    for m in re.finditer(rb'VERS\s*\.\s+([\d.]+)|(~V\S*)|WRAP\s*\.\s+(\S+)', by[:600]):
+        g = next(i for i in (1, 2, 3) if m.group(i) is not None)
+        out.append((m.start(g), m.end(g) - m.start(g), 'las.token'))
+    return out
